@@ -97,7 +97,10 @@ check('C12',
       'ExitTestException, pytest Skipped, SystemExit, KeyboardInterrupt, import failure); TLC checks StdoutRestored over every program of '
       '<=3 (quick) / <=4 (thorough) parts over 14 part kinds (printing, replacing sys.stdout, changing warning filters, awaiting) x on_error x '
       'mode x import ok/failing. Every terminal state is run by the real DocTest.run and sys.stdout, sys.stderr, sys.path, warnings.filters, '
-      'warnings.showwarning are compared with their values at entry and no event loop may be left running, at normal and exceptional exits.',
+      'warnings.showwarning are compared with their values at entry and no event loop may be left running, at normal and exceptional exits '
+      '(verbosity 0..3 rotating; a body kind that closes the capture stream). PathCtx.tla models PythonPathContext around an import whose module '
+      'changes sys.path itself (every behaviour replayed); imports by path from zip archives (succeeding, failing, missing) are compared for '
+      'sys.path, warning filters and streams; recorded run-loop traces are validated against DocRunTrace.tla (CapEnter/CapExit restore stdout).',
       DOCRUN_NOTE + ' Import by path outside a run (import_module_from_path) is covered by the C17 check.',
       'TLA+ run-loop spec (TLC exhaustive), exhaustive replay of TLC terminal states into DocTest.run with before/after snapshots of process globals',
       'DESIGN.md section 5 (C12)', 'docrun')
@@ -169,7 +172,11 @@ check('C07',
       'per-style count. TLC checks VisitIsDecl and UniqueNames for every module of <=3 (thorough <=4) items over 58 item kinds (def / async def / '
       'class / if True / main guard / try / with; plain, wraps, property, setter, deleter, static, class decorators; none / freeform / google '
       'docstrings) x 3 module docstrings. Each module is rendered and collected by the real static collector under the three styles: the set of '
-      '(callname, index) must be the predicted one, each once, identifiers unique, parse_static_calldefs = inventory. Package trees: see C17 (package_modpaths).',
+      '(callname, index) must be the predicted one, each once, identifiers unique, parse_static_calldefs = inventory. Further spaces over the same '
+      'spec: freeform layouts with skip words in front of a group (Kept vs WalkKept, ExamplesAreDecl; start line and source lines compared) and '
+      'definitions inside except / else / finally / case / if-else / for-else clauses and for bodies. Code -> spec: CollectTrace.tla evaluates '
+      'the visitor model on the item lists of real modules (repository; thorough: standard library) against the real collector. '
+      'Package trees: see C17 (package_modpaths).',
       COLLECT_NOTE, 'TLA+ visitor spec vs declarative inventory (TLC exhaustive), replay of TLC-generated modules into the real collector',
       'DESIGN.md section 5 (C07)', 'collect')
 
